@@ -266,6 +266,8 @@ def stale_cached_wod(op, pool):
         return w is not None and w is not o and o._derivs_ and D.dump(w)[:22] != D.dump(o)[:22]
     if op[0] == 'insert_deriv':
         return stale(pool[op[3]])
+    if op[0] == 'wod':
+        return stale(pool[op[1]])
     if op[0] == 'ctor':
         ds = [pool[i] for _, i in op[4]] if op[4] != 'none' else []
         if op[2] != 'bad' and op[2][0] == 'obj':
